@@ -708,12 +708,12 @@ Definition step_api_start (s : state) (o : nat) (p : op) (rid : id) : outcome :=
         Ok (set_next s nid) [OSend (CPublish nid t false); OReturn o nid RetOk]
       else if rid =? 0 then Ok s [OReturn o 0 RetNotConn] else Invalid
   | OpBadCall =>
-      (* the request id is taken, nothing is sent, no reply is expected *)
+      (* the request id is taken, nothing is sent, no reply is expected (the
+         caller never learns the id: the label carries 0) *)
+      if negb (rid =? 0) then Invalid else
       if s_connected s then
-        let nid := s_next s + 1 in
-        if negb (rid =? nid) then Invalid else
-        Ok (set_next s nid) [OReturn o nid (RetLocal E_SCHEME_INVALID)]
-      else if rid =? 0 then Ok s [OReturn o 0 RetNotConn] else Invalid
+        Ok (set_next s (s_next s + 1)) [OReturn o 0 (RetLocal E_SCHEME_INVALID)]
+      else Ok s [OReturn o 0 RetNotConn]
   | OpCallProg _ _ _ _ =>
       if s_connected s then
         if cfg_progcall (s_cfg s) then enqueue s 0
